@@ -153,7 +153,11 @@ def handleChain (args : List String) : String :=
            | [] => true) &&
           (t == 0 || gcfiLastFp fp0 fs == 0)
         let showExp := fun (e : Exp) => s!"{e.ret},{e.sp},{(e.fp.map toString).getD "-"}"
-        s!"hyp={if hyp then 1 else 0} sp={pAddr a.ptr b s} stack:{hex m.bytes.toList} exp:{"|".intercalate ((gcfiChain a.ptr b s fp0 fs).map showExp)}"
+        -- worlds of one module: the side condition from record-level facts (`gcfiSide_one_module`)
+        let one := match r.world.mods, r.world.syms with
+          | [md], [some sf] => if oneModOkB md sf && gcfiSideOne md sf a r.ctx.ip true fs then "1" else "0"
+          | _, _ => "-"
+        s!"hyp={if hyp then 1 else 0} one={one} sp={pAddr a.ptr b s} stack:{hex m.bytes.toList} exp:{"|".intercalate ((gcfiChain a.ptr b s fp0 fs).map showExp)}"
       else "bad-op"
     | _, _, _, _, _ => "bad-op"
   | "pre" :: tech :: exp :: rest =>
